@@ -669,7 +669,7 @@ FINDINGS = {
                 "an unparenthesised tuple starting with a {...} display (or a parenthesised one) in statement position is misparsed: `{1}, {2}` becomes the set {1, {2}}"),
     "C01-F21": (("tree-differs",), r"Match", _f_match_nested_seq, "match x:\n    case [1, [2]]: pass\n",
                 "a sequence pattern nested as an element of a sequence pattern is flattened into / dropped from the outer pattern"),
-    "C01-F22": (("tree-differs", "reject"), r"\.(id|arg|attr|name)|SyntaxError", _f_nfkc, "ʹ = 1\n",
+    "C01-F22": (("tree-differs", "reject"), r"\.(id|arg|attr|name)|SyntaxError", _f_nfkc, "\u0374 = 1\n",
                 "identifiers are not NFKC-normalised as CPython does, and identifier characters that are not alphanumeric (combining marks, variation selectors) are rejected"),
     "C01-F23": (("reject",), r"", _f_fs_named_escape, "f'\\N{DIGIT ONE}'\n",
                 "\\N{...} named escape inside an f-string is rejected"),
@@ -685,9 +685,9 @@ FINDINGS = {
                 "raw f-string containing a backslash followed by its own quote character is rejected"),
     "C01-F29": (("reject",), r"code: yield", _f_fs_yield, "def g():\n    f'{yield}'\n",
                 "unparenthesised yield inside an f-string replacement field is rejected"),
-    "C01-F30": (("reject",), r"", _f_backslash_blank, "x = 1\\\n\ny = 2\n",
+    "C01-F30": (("reject",), r"", _f_backslash_blank, "\\\n\n        \\\n\n\n",
                 "a backslash continuation followed by a blank line is rejected"),
-    "C01-F31": (("tree-differs", "reject"), r"", _f_eval_leading_comment, "#c\n()",
+    "C01-F31": (("tree-differs", "reject"), r"", _f_eval_leading_comment, "#if\n()\n#endif\n",
                 "eval-mode input with a comment-only or blank line before or after the expression yields a Module root instead of Expression"),
     "C01-F32": (("reject",), r"code: :=", _f_match_walrus_subject, "match w := x:\n    case y: pass\n",
                 "unparenthesised walrus as match subject is rejected"),
